@@ -13,7 +13,10 @@
  *   2. VFIO_ERR="<n>:<errno>[:<op>]" the n-th (0-based) matching call (of kind op = r|w, default any) fails; then
  *   3. VFIO_SEED=<int> with VFIO_PSHORT / VFIO_PEINTR (per mille, default 300 / 200):
  *      pseudo-random Short/EINTR outcomes, reproducible for a single-threaded program; else
- *   4. Full.
+ *   4. VFIO_CAP=<k>: every matching call is cut to at most k bytes (reads arriving 1 or 2 bytes at a time); else
+ *   5. VFIO_MINUS=<k>: every matching READ asking for n > 4096 bytes returns exactly n-k bytes (the
+ *      interposer keeps reading until it has them, or end of input): buffers end up k bytes short of full; else
+ *   6. Full.
  * Matching: VFIO_FDS="all" (default) or a comma separated list of descriptors;
  *           VFIO_OPS= any of r (read, readv), w (write, writev), p (pread, pwrite); default "rwp".
  *   VFIO_MAXEINTR=<n> (default 3): at most n consecutive random EINTRs per descriptor.
@@ -53,6 +56,7 @@ static int g_ops_r = 1, g_ops_w = 1, g_ops_p = 1;
 static int g_random = 0;
 static uint64_t g_rng = 0x9E3779B97F4A7C15ull;
 static int g_pshort = 300, g_peintr = 200, g_maxeintr = 3;
+static long g_cap = 0, g_minus = 0;
 static unsigned char g_eintr_run[MAXFD];
 static long g_err_at = -1;
 static int g_err_errno = 5;
@@ -114,6 +118,8 @@ __attribute__((constructor)) static void vfio_init(void) {
   if ((e = getenv("VFIO_PSHORT"))) g_pshort = atoi(e);
   if ((e = getenv("VFIO_PEINTR"))) g_peintr = atoi(e);
   if ((e = getenv("VFIO_MAXEINTR"))) g_maxeintr = atoi(e);
+  if ((e = getenv("VFIO_CAP"))) g_cap = atol(e);
+  if ((e = getenv("VFIO_MINUS"))) g_minus = atol(e);
   if ((e = getenv("VFIO_ERR")) && *e) {
     char *q;
     g_err_at = strtol(e, &q, 10);
@@ -152,6 +158,8 @@ static void log_call(char op, int fd, size_t req, long ret) {
 
 /* decide the outcome of one matching call; returns 0 if the call does not match */
 static int decide(char op, int fd, size_t n, struct outcome *oc) {
+  oc->kind = 'F';
+  oc->arg = 0;
   if (!g_ready || fd < 0 || fd == g_log_fd) return 0;
   if (!g_all_fds && !(fd < MAXFD && g_fd_on[fd])) return 0;
   if ((op == 'r' && !g_ops_r) || (op == 'w' && !g_ops_w) || ((op == 'P' || op == 'Q') && !g_ops_p)) return 0;
@@ -182,6 +190,16 @@ static int decide(char op, int fd, size_t n, struct outcome *oc) {
       return 1;
     }
   }
+  if (g_cap > 0 && (long)n > g_cap) {
+    oc->kind = 'S';
+    oc->arg = g_cap;
+    return 1;
+  }
+  if (g_minus > 0 && op == 'r' && n > 4096 && (long)n > g_minus) {
+    oc->kind = 'M';            /* read exactly n - g_minus bytes */
+    oc->arg = (long)n - g_minus;
+    return 1;
+  }
   return 1;
 }
 
@@ -208,7 +226,20 @@ static size_t cut(const struct outcome *oc, size_t n) {
   errno = saved;                                                      \
   return ret;
 
-ssize_t read(int fd, void *buf, size_t n) { INJECT('r', fd, n, syscall(SYS_read, fd, buf, len)) }
+static long read_exactly(int fd, char *buf, size_t want) {
+  size_t done = 0;
+  while (done < want) {
+    long r = syscall(SYS_read, fd, buf + done, want - done);
+    if (r < 0) { if (errno == EINTR) continue; return done ? (long)done : r; }
+    if (r == 0) break;
+    done += (size_t)r;
+  }
+  return (long)done;
+}
+
+ssize_t read(int fd, void *buf, size_t n) {
+  INJECT('r', fd, n, (oc.kind == 'M' ? read_exactly(fd, (char *)buf, (size_t)oc.arg) : syscall(SYS_read, fd, buf, len)))
+}
 ssize_t write(int fd, const void *buf, size_t n) { INJECT('w', fd, n, syscall(SYS_write, fd, buf, len)) }
 ssize_t pread(int fd, void *buf, size_t n, off_t off) { INJECT('P', fd, n, syscall(SYS_pread64, fd, buf, len, off)) }
 ssize_t pwrite(int fd, const void *buf, size_t n, off_t off) { INJECT('Q', fd, n, syscall(SYS_pwrite64, fd, buf, len, off)) }
